@@ -1179,8 +1179,11 @@ func (e *endpoint) Stage(paths []string, digests [][]byte) ([]string, []*rsync.S
 	e.scannedSinceLastStageCall = false
 
 	// Verify that the number of paths provided isn't going to put us over the
-	// maximum number of allowed entries.
-	if e.maximumEntryCount != 0 && (e.maximumEntryCount-e.lastScanEntryCount) < uint64(len(paths)) {
+	// maximum number of allowed entries. The last scan may already have counted
+	// more entries than the maximum (in which case Scan reported an error), so
+	// we check that first to avoid wrapping the unsigned subtraction.
+	if e.maximumEntryCount != 0 && (e.lastScanEntryCount > e.maximumEntryCount ||
+		(e.maximumEntryCount-e.lastScanEntryCount) < uint64(len(paths))) {
 		e.unlockScanLock()
 		return nil, nil, nil, errors.New("staging would exceeded allowed entry count")
 	}
